@@ -115,7 +115,10 @@ pub fn replay(j: &J) -> Result<J, String> {
                 }
             }
             "mem-classifier" | "is_ascii" | "is_utf8_latin1" | "is_utf8_bidi" | "check_utf8_for_latin1_and_bidi" | "is_str_latin1" | "is_str_bidi" | "check_str_for_latin1_and_bidi" | "is_basic_latin" | "is_utf16_latin1" | "is_utf16_bidi" | "check_utf16_for_latin1_and_bidi" | "is_char_bidi" | "is_utf16_code_unit_bidi" => {
-                if let Some(u) = units_of(text) {
+                // byte functions take continuous hex, UTF-16 functions 4-digit groups: decide by the
+                // function (a lone "C080" would be ambiguous)
+                let is16 = base.contains("utf16") || base == "is_basic_latin" || (base.starts_with("mem") && text.contains(' '));
+                if let Some(u) = units_of(text).filter(|_| is16) {
                     o.put("is_basic_latin", J::Bool(mem::is_basic_latin(&u)));
                     o.put("is_utf16_latin1", J::Bool(mem::is_utf16_latin1(&u)));
                     o.put("is_utf16_bidi", J::Bool(mem::is_utf16_bidi(&u)));
